@@ -1,6 +1,7 @@
 package mon
 
 import (
+	"sort"
 	"bufio"
 	"errors"
 	"fmt"
@@ -471,6 +472,42 @@ func c07Prefixes(w *core.W, j int) {
 	}
 }
 
+// c07Frags are the pieces RDATA tokens are glued from in c07TokenSoup: the punctuation the bespoke
+// parsers (APL, SVCB, LOC, NSEC3, IPSECKEY, AMTRELAY, HIP, CERT, NID, EUI, times, TTLs) split their tokens
+// at, values at and beyond field limits, and the lexer's own specials.
+var c07Frags = []string{":", "!", "/", "=", ",", "-", "+", ".", "@", "*", "_", "$", "#", "%", "0", "1", "3", "255", "256", "65535", "65536", "4294967295", "4294967296",
+	"a", "N", "S", "E", "W", "m", "key1", "key65535", "alpn", "mandatory", "ipv4hint", "port", "no-default-alpn", "1:", "2:", "!1:", "::", "::1", "1.2.3.4", "/0", "/33", "/129",
+	"00", "zz", "AA==", "AAAA", "\"\"", "\"a\"", "\"a b\"", "\\", "\\.", "\\000", "\\256", "(", ")", "20060102150405", "1h", "PKIX", "RSASHA256", "A", "TYPE1", "TYPE65536", "CLASS1", "IN", "\\#", "-", "0x", "1e3", "٣"}
+
+// c07TokenSoup: after the mnemonic of every type, RDATA of 1..6 tokens glued from c07Frags. Whatever a
+// token parser indexes, slices or converts has to survive tokens that are empty on one side of their
+// separator, carry the separator first or last, or are out of range.
+func c07TokenSoup(w *core.W, j int) {
+	r := w.Rng(j)
+	var names []string
+	for _, n := range dns.TypeToString {
+		names = append(names, n)
+	}
+	sort.Strings(names)
+	cfg := c07Cfg{failAt: -1, file: c07Canary + "/zone.db"}
+	for k := 0; k < 12; k++ {
+		name := names[(j*12+k)%len(names)]
+		var sb strings.Builder
+		for t := 1 + r.IntN(6); t > 0; t-- {
+			for f := 1 + r.IntN(3); f > 0; f-- {
+				sb.WriteString(c07Frags[r.IntN(len(c07Frags))])
+			}
+			if t > 1 {
+				sb.WriteByte(' ')
+			}
+		}
+		w.Cover("soup_type", name)
+		c07Parse(w, "own.example. 60 IN "+name+" "+sb.String(), cfg, "token-soup/"+name, nil)
+		c07Parse(w, "own.example. 60 IN "+name+" "+sb.String()+"\nnext.example. 60 IN A 192.0.2.1\n", cfg, "token-soup/"+name, nil)
+	}
+	w.Count("token_soup_cases", 1)
+}
+
 // c07CommentBoundary: comments of n octets at the places where the lexer carries a comment over
 // (inside parentheses across lines, after tokens, before and after blanks), followed by more
 // comments; token and string lengths of n octets as well.
@@ -613,6 +650,7 @@ func init() {
 		section{"broken-include", tiered(2, 4), c07Broken},
 		section{"mutations", tiered(12000, 400000), c07Case},
 		section{"prefixes", func(string) int { return len(textLayouts()) + 4 }, c07Prefixes},
+		section{"token-soup", tiered(1500, 60000), c07TokenSoup},
 		concurrentSection("C07"),
 	)
 	core.Register(&core.Monitor{
